@@ -133,8 +133,27 @@ def items(draw, cfg, fields):
 
 @st.composite
 def detections(draw, cfg, fields):
-    shape = draw(st.sampled_from(["map", "map", "map", "listmap", "kwlist", "kw"]))
+    shape = draw(st.sampled_from(["map", "map", "map", "listmap", "kwlist", "kw", "family"]))
     prof = cfg["str_profile"]
+    if shape == "family":
+        # one junction whose operands are of one kind but render differently depending on their value: existence checks
+        # (true / false), null next to values, booleans; in any order, plus an ordinary item, OR-linked (list of maps) or
+        # AND-linked (one map)
+        fam = draw(st.sampled_from(["exists", "exists", "null", "bool"]))
+        fs = draw(st.permutations(fields))[:4]
+        if fam == "exists":
+            parts = [(f + "|exists", draw(st.booleans())) for f in fs[:3]]
+        elif fam == "null":
+            parts = [(fs[0], None), (fs[1], draw(st.sampled_from(["x", 1]))), (fs[2], None)]
+        else:
+            parts = [(f, draw(st.booleans())) for f in fs[:3]]
+        if len(fs) > 3 and draw(st.booleans()):
+            k, v = draw(items(cfg, [fs[3]]))
+            parts.append((k, v))
+        parts = list(draw(st.permutations(parts)))
+        if draw(st.booleans()):
+            return [{k: v} for k, v in parts]
+        return dict(parts)
     if shape == "map":
         its = draw(st.lists(items(cfg, fields), min_size=1, max_size=8 if BIG[0] else 3))
         return dict(its)
